@@ -9,6 +9,7 @@ import (
 	"encoding/json"
 	"fmt"
 	"go/ast"
+	"go/parser"
 	"go/token"
 	"os"
 	"os/exec"
@@ -110,10 +111,10 @@ func isCancelName(e ast.Expr) bool {
 	return false
 }
 
-func (in *instr) rewriteSelect(c *astutil.Cursor, n *ast.SelectStmt) {
-	if _, ok := c.Parent().(*ast.LabeledStmt); ok {
-		fatalf("%s: labeled select statements are not supported by the instrumenter", in.s.fset.Position(n.Pos()))
-	}
+// rewriteSelect rewrites the select in place and replaces outer (the select itself, or
+// the labeled statement it is the body of: a label is function-scoped, so it may move
+// into the new block) by a block that first evaluates the operands and asks the explorer.
+func (in *instr) rewriteSelect(c *astutil.Cursor, n *ast.SelectStmt, outer ast.Stmt) {
 	var pre []ast.Stmt
 	var cases []ast.Expr
 	hasDefault := "false"
@@ -167,9 +168,128 @@ func (in *instr) rewriteSelect(c *astutil.Cursor, n *ast.SelectStmt) {
 	args := append([]ast.Expr{in.label(n), ast.NewIdent(hasDefault)}, cases...)
 	pre = append(pre, define(sv, call(sel("vsched", "Select"), args...)))
 	in.skip[n] = true
-	blk := &ast.BlockStmt{List: append(pre, n)}
+	in.skip[outer] = true
+	blk := &ast.BlockStmt{List: append(pre, outer)}
 	c.Replace(blk)
 	in.stats["select"]++
+}
+
+// chanNames are the identifiers (variables, parameters, struct fields) declared with a
+// channel type, and chanFuncs the functions whose first result is a channel, anywhere
+// in the non-test files of the packages being instrumented. The instrumenter has no
+// type information; a range statement over an expression that ends in one of these
+// names is taken to be a range over a channel.
+var chanNames, chanFuncs = map[string]bool{}, map[string]bool{}
+
+func collectChans(dir string) {
+	ents, err := os.ReadDir(dir)
+	if err != nil {
+		return
+	}
+	isChan := func(e ast.Expr) bool { _, ok := e.(*ast.ChanType); return ok }
+	for _, e := range ents {
+		if e.IsDir() || !strings.HasSuffix(e.Name(), ".go") || strings.HasSuffix(e.Name(), "_test.go") {
+			continue
+		}
+		f, err := parser.ParseFile(token.NewFileSet(), filepath.Join(dir, e.Name()), nil, parser.SkipObjectResolution)
+		if err != nil {
+			continue
+		}
+		ast.Inspect(f, func(n ast.Node) bool {
+			switch x := n.(type) {
+			case *ast.Field:
+				if isChan(x.Type) {
+					for _, id := range x.Names {
+						chanNames[id.Name] = true
+					}
+				}
+			case *ast.ValueSpec:
+				if x.Type != nil && isChan(x.Type) {
+					for _, id := range x.Names {
+						chanNames[id.Name] = true
+					}
+				}
+				for i, v := range x.Values {
+					if isMakeChan(v) && i < len(x.Names) {
+						chanNames[x.Names[i].Name] = true
+					}
+				}
+			case *ast.AssignStmt:
+				for i, v := range x.Rhs {
+					if isMakeChan(v) && i < len(x.Lhs) {
+						if id, ok := x.Lhs[i].(*ast.Ident); ok {
+							chanNames[id.Name] = true
+						}
+					}
+				}
+			case *ast.FuncDecl:
+				if x.Type.Results != nil && len(x.Type.Results.List) > 0 && isChan(x.Type.Results.List[0].Type) {
+					chanFuncs[x.Name.Name] = true
+				}
+			}
+			return true
+		})
+	}
+}
+
+func isMakeChan(e ast.Expr) bool {
+	c, ok := e.(*ast.CallExpr)
+	if !ok || len(c.Args) == 0 {
+		return false
+	}
+	id, ok := c.Fun.(*ast.Ident)
+	if !ok || id.Name != "make" {
+		return false
+	}
+	_, ok = c.Args[0].(*ast.ChanType)
+	return ok
+}
+
+func (in *instr) isChanExpr(e ast.Expr) bool {
+	switch x := unparen(e).(type) {
+	case *ast.Ident:
+		return chanNames[x.Name]
+	case *ast.SelectorExpr:
+		return chanNames[x.Sel.Name]
+	case *ast.CallExpr:
+		switch f := x.Fun.(type) {
+		case *ast.Ident:
+			return chanFuncs[f.Name]
+		case *ast.SelectorExpr:
+			return chanFuncs[f.Sel.Name] || (f.Sel.Name == "Done" && len(x.Args) == 0)
+		}
+	}
+	return false
+}
+
+// rewriteRange turns `for k := range ch { body }` into
+//
+//	{ vs_c := ch; for { k, vs_ok := vsched.Recv2(label, vs_c); if !vs_ok { break }; body } }
+//
+// (outer is the range statement or the labeled statement around it).
+func (in *instr) rewriteRange(c *astutil.Cursor, n *ast.RangeStmt, outer ast.Stmt) {
+	tc, tv, tok := in.temp(), in.temp(), in.temp()
+	recv := &ast.AssignStmt{Lhs: []ast.Expr{tv, tok}, Tok: token.DEFINE, Rhs: []ast.Expr{call(sel("vsched", "Recv2"), in.label(n), tc)}}
+	list := []ast.Stmt{recv, &ast.IfStmt{Cond: &ast.UnaryExpr{Op: token.NOT, X: tok}, Body: &ast.BlockStmt{List: []ast.Stmt{&ast.BranchStmt{Tok: token.BREAK}}}}}
+	if n.Key != nil {
+		if id, ok := n.Key.(*ast.Ident); !ok || id.Name != "_" {
+			list = append(list, &ast.AssignStmt{Lhs: []ast.Expr{n.Key}, Tok: n.Tok, Rhs: []ast.Expr{tv}})
+		} else {
+			list = append(list, &ast.AssignStmt{Lhs: []ast.Expr{ast.NewIdent("_")}, Tok: token.ASSIGN, Rhs: []ast.Expr{tv}})
+		}
+	} else {
+		list = append(list, &ast.AssignStmt{Lhs: []ast.Expr{ast.NewIdent("_")}, Tok: token.ASSIGN, Rhs: []ast.Expr{tv}})
+	}
+	loop := &ast.ForStmt{Body: &ast.BlockStmt{List: append(list, n.Body.List...)}}
+	var st ast.Stmt = loop
+	if l, ok := outer.(*ast.LabeledStmt); ok {
+		l.Stmt = loop
+		st = l
+	}
+	in.skip[recv] = true
+	in.skip[st] = true
+	c.Replace(&ast.BlockStmt{List: []ast.Stmt{define(tc, n.X), st}})
+	in.stats["range-chan"]++
 }
 
 func (in *instr) pre(c *astutil.Cursor) bool {
@@ -179,14 +299,24 @@ func (in *instr) pre(c *astutil.Cursor) bool {
 	}
 	switch x := n.(type) {
 	case *ast.RangeStmt:
-		// range over a channel would be an uninstrumented receive.
-		// (Cannot type-check here; the target files have none: report any range whose
-		// expression is obviously a channel name.)
-		if id, ok := x.X.(*ast.Ident); ok && (strings.HasSuffix(id.Name, "C") || strings.HasSuffix(id.Name, "Ch")) {
-			fatalf("%s: range over what looks like a channel (%s) is not instrumented", in.s.fset.Position(x.Pos()), id.Name)
+		// range over a channel is a receive per iteration.
+		if in.isChanExpr(x.X) {
+			in.rewriteRange(c, x, x)
+			return true
+		}
+	case *ast.LabeledStmt:
+		switch inner := x.Stmt.(type) {
+		case *ast.SelectStmt:
+			in.rewriteSelect(c, inner, x)
+			return true
+		case *ast.RangeStmt:
+			if in.isChanExpr(inner.X) {
+				in.rewriteRange(c, inner, x)
+				return true
+			}
 		}
 	case *ast.SelectStmt:
-		in.rewriteSelect(c, x)
+		in.rewriteSelect(c, x, x)
 		return true
 	case *ast.DeferStmt:
 		// Calls evaluated at defer time must not become scheduling points then.
@@ -336,6 +466,14 @@ func stageVirtual(srcDir, virt string, files []string, instrument map[string]boo
 
 func instrumentAll(dialer *staged) {
 	stats := map[string]int{}
+	seenDir := map[string]bool{"internal/system": true}
+	collectChans(filepath.Join(*repo, "internal/system"))
+	for _, rel := range repoFiles {
+		if d := filepath.Dir(rel); !seenDir[d] {
+			seenDir[d] = true
+			collectChans(filepath.Join(*repo, d))
+		}
+	}
 	instrumentFile(dialer, "dialer.go", stats)
 	dialer.write()
 	for _, rel := range repoFiles {
